@@ -51,6 +51,16 @@ CASES = [
             'Big(x) distinct :- T(x, y), x > 0;\nBigger(x) distinct :- Big(x), x > 0;\nP(x) :- Bigger(x), x < 4;\n'
             'R(x, y) :- P(x), Bigger(y), y >= x;\nTotal() += 1 :- R(x, y);\n',
        tables={'P': [(1,), (2,)], 'R': [(1, 1), (1, 2), (2, 2)]}, preds={'Total': [(3,)]}, asks_itself='P'),
+  # a grounded intermediate that is ordered and limited: the table holds the first K rows in that order
+  dict(name='grounded_ordered_limited', attach='logica_home',
+       text='@AttachDatabase("logica_home", "FILE");\n@Ground(Top);\n@OrderBy(Top, "col0 desc");\n@Limit(Top, 2);\n' + FACTS +
+            'Top(y) :- T(x, y);\nUse(y + 1) :- Top(y);\n',
+       tables={'Top': [(5,), (3,)]}, preds={'Use': [(6,), (4,)]}, asks_itself='Top'),
+  # the path of the attached database comes from a flag
+  dict(name='attach_path_from_flag', attach='logica_home',
+       text='@DefineFlag("wall", "FILE");\n@AttachDatabase("logica_home", "${wall}");\n@Ground(Mid);\n' + FACTS +
+            'Mid(x) :- T(x, y), x > 0;\nTop(x) :- Mid(x);\n',
+       tables={'Mid': [(1,), (1,), (2,)]}, preds={'Top': [(1,), (1,), (2,)]}, asks_itself='Mid'),
 ]
 
 
